@@ -83,22 +83,49 @@ type elem struct {
 	Corrupt int // 0 none, 1 signs a digest of a body with one bit flipped, 2 r bit flip, 3 s bit flip, 4.. v values
 }
 
-var vvals = []byte{2, 3, 27, 28, 255}
+var vvals = []byte{2, 3, 27, 28, 255, 4}
+
+// zeroID in a guardian list stands for the all-zero address (a slot no key can sign for); a "signature by"
+// zeroID is 65 zero bytes. Corruption kinds beyond the recovery-byte values make a signature that recovers
+// to NO key at all: all-zero, r = 0, r = the group order.
+const zeroID = -7
+
+var secpN = []byte{0xff, 0xff, 0xff, 0xff, 0xff, 0xff, 0xff, 0xff, 0xff, 0xff, 0xff, 0xff, 0xff, 0xff, 0xff, 0xfe, 0xba, 0xae, 0xdc, 0xe6, 0xaf, 0x48, 0xa0, 0x3b, 0xbf, 0xd2, 0x5e, 0x8c, 0xd0, 0x36, 0x41, 0x41}
+
+func addrsOf(list []int) []common.Address {
+	out := make([]common.Address, len(list))
+	for i, id := range list {
+		if id != zeroID {
+			out[i] = keys.Addr(id)
+		}
+	}
+	return out
+}
 
 func mkSig(e elem, digest, otherDigest []byte) *vaa.Signature {
 	d := digest
 	if e.Corrupt == 1 {
 		d = otherDigest
 	}
-	raw := keys.Sign(e.Signer, d)
 	s := &vaa.Signature{Index: uint8(e.Idx)}
+	if e.Signer == zeroID {
+		return s
+	}
+	raw := keys.Sign(e.Signer, d)
 	copy(s.Signature[:], raw)
+	nv := 4 + len(vvals)
 	switch {
+	case e.Corrupt == nv: // all-zero signature
+		s.Signature = [65]byte{}
+	case e.Corrupt == nv+1: // r = 0
+		copy(s.Signature[:32], make([]byte, 32))
+	case e.Corrupt == nv+2: // r = group order
+		copy(s.Signature[:32], secpN)
 	case e.Corrupt == 2:
 		s.Signature[3] ^= 0x10
 	case e.Corrupt == 3:
 		s.Signature[40] ^= 0x01
-	case e.Corrupt >= 4:
+	case e.Corrupt >= 4 && e.Corrupt < nv:
 		s.Signature[64] = vvals[e.Corrupt-4]
 	}
 	return s
@@ -126,7 +153,7 @@ func run(list []int, seq []elem, note string, flipBody bool) {
 		v.Sequence ^= 1 // signatures were made over the original body
 		digest = ownDigest(v)
 	}
-	addrs := keys.Addrs(list...)
+	addrs := addrsOf(list)
 	want := predicate(digest, v.Signatures, addrs)
 	var got bool
 	func() {
@@ -190,6 +217,8 @@ func smallLists() [][]int {
 		{}, {0}, {0, 1}, {0, 0},
 		{0, 1, 2}, {0, 0, 1}, {0, 1, 0}, {1, 0, 0}, {0, 0, 0},
 		{0, 1, 2, 3}, {0, 1, 0, 1}, {0, 0, 1, 2}, {0, 1, 2, 0}, {0, 1, 1, 2},
+		// lists with an all-zero address slot (an unset / burnt guardian key): nothing can sign for it
+		{zeroID}, {zeroID, 0}, {0, zeroID}, {zeroID, zeroID}, {0, zeroID, 1}, {0, 1, zeroID, 2},
 	}
 }
 
@@ -215,11 +244,17 @@ func main() {
 		}
 	}
 	// ---- small lists
-	nCorrupt := 4 + len(vvals)
+	nCorrupt := 4 + len(vvals) + 3
 	for _, list := range smallLists() {
 		n := len(list)
 		idxs := append(keysRange(n+1), 255)
 		signers := []int{0, 1, 2, 3, outsider}
+		for _, id := range list {
+			if id == zeroID {
+				signers = []int{0, 1, 2, outsider, zeroID}
+				break
+			}
+		}
 		var elemsFull, elemsPlain []elem
 		for _, ix := range idxs {
 			for _, sg := range signers {
